@@ -135,7 +135,19 @@ def cmp_specs():
     gt = Spec('timestamp.__gt__', (T, 'timestamp.__gt__'), params={'rhs': rhs}, fields=fields,
               ensures=[('greater-than means more than one millisecond later', 'result == (self.value - 1/1000 > rhs.value)')],
               raises={}, modifies=[])
-    return [lt, gt]
+    lt.returns = gt.returns = 'Bool'
+    cal = {'timestamp.__lt__': lt, '__lt__': lt, 'timestamp.__gt__': gt, '__gt__': gt}
+    LT, GT = '(self.value + 1/1000 < rhs.value)', '(self.value - 1/1000 > rhs.value)'
+    ne = Spec('timestamp.__ne__', (T, 'timestamp.__ne__'), params={'rhs': rhs}, fields=fields,
+              ensures=[('different means more than one millisecond apart', 'result == (%s or %s)' % (LT, GT))], raises={}, modifies=[], callees=cal, returns='Bool')
+    eq = Spec('timestamp.__eq__', (T, 'timestamp.__eq__'), params={'rhs': rhs}, fields=fields,
+              ensures=[('equal means within one millisecond: neither < nor >', 'result == (not %s and not %s)' % (LT, GT))], raises={}, modifies=[],
+              callees=dict(cal, **{'timestamp.__ne__': ne, '__ne__': ne}))
+    le = Spec('timestamp.__le__', (T, 'timestamp.__le__'), params={'rhs': rhs}, fields=fields,
+              ensures=[('<= is not >', 'result == (not %s)' % GT)], raises={}, modifies=[], callees=cal)
+    ge = Spec('timestamp.__ge__', (T, 'timestamp.__ge__'), params={'rhs': rhs}, fields=fields,
+              ensures=[('>= is not <', 'result == (not %s)' % LT)], raises={}, modifies=[], callees=cal)
+    return [lt, gt, ne, eq, le, ge]
 
 
 def order_lemmas(repo):
